@@ -103,6 +103,7 @@ struct State {
     long next_val = 1;
     int sections = 0;  // exclusive sections executed
     int throws_seen = 0;
+    const void* main_mutex = nullptr;  // the lock that protects the wrapped object
 };
 inline State* G;
 
@@ -201,9 +202,17 @@ struct TryGuard {
     explicit TryGuard(bool strict)
     {
         gsim::timed_block_reset();
-        if (strict && G->oracle_handle && G->enabled) gsim::forbid_blocking(true, "try_blocked");
+        if (!(G->oracle_handle && G->enabled)) return;
+        if (strict) gsim::forbid_blocking(true, "try_blocked");
+        // wrappers whose try forms take short internal locks: only an untimed
+        // wait on the wrapper's own lock is forbidden
+        else gsim::forbid_blocking_on(G->main_mutex, "try_blocked");
     }
-    ~TryGuard() { gsim::forbid_blocking(false, nullptr); }
+    ~TryGuard()
+    {
+        gsim::forbid_blocking(false, nullptr);
+        gsim::forbid_blocking_on(nullptr, nullptr);
+    }
 };
 inline void check_timed(int64_t t_entry, std::chrono::microseconds d, bool until, const char* what)
 {
@@ -804,7 +813,7 @@ void generate(const char* mode)
     int nwritten = 0;
     written[nwritten++] = 0;
     for (int t = 0; t < n; t++) {
-        int k = single ? 1 + gsim::gen_int(12) : 1 + gsim::gen_int(4);
+        int k = single ? 1 + gsim::gen_int(12) : 1 + gsim::gen_int(4 + (gsim::thorough() ? 2 : 0));
         for (int i = 0; i < k; i++) {
             gsim::Op op;
             op.code = p[gsim::gen_int((int)p.size())];
@@ -864,9 +873,11 @@ void run_wrapper()
     if constexpr (has_lock<W>::value) {
         auto h = w->lock();
         Cell::tracked = &*h;
+        if (st.enabled) st.main_mutex = gsim::last_lock_obj();
     } else if constexpr (has_lock_shared<W>::value) {
         auto h = static_cast<const W*>(w)->lock_shared();
         Cell::tracked = &*h;
+        st.main_mutex = gsim::last_lock_obj();
     }
     Cell::model = 0;
     if (st.oracle_throw) Cell::throw_on_copy = true;
